@@ -101,7 +101,7 @@ fn gen_tables(r: &mut Rng, lclass: &str, rclass: &str, mixed: bool, kty0: Option
         }
         let cuts = cut(r, n, if n >= 900 { 6 } else { 4 });
         desc += &format!("knull{}:{} ", t, knull[0]);
-        tables.push(TableSpec { name: format!("t{}", t), cols, rows, cuts });
+        tables.push(TableSpec { cluster: None, name: format!("t{}", t), cols, rows, cuts });
     }
     desc += &format!("kty:{}", ktys[0].name());
     (Catalog { tables }, desc)
@@ -431,7 +431,7 @@ fn run_any(case: &Value) -> Value {
 /// hand-made minimal cases, one per listed finding (`--opt witness=1`)
 fn witness_cases() -> Vec<(Value, Value)> {
     let mk = |n: &str, cty| ColSpec { name: n.into(), cty, null_pct: 0, boundary: false, special: false, unique: n.starts_with("id") };
-    let table = |t: usize, aty: ColTy, rows: Vec<Vec<Val>>| { let n = rows.len(); TableSpec { name: format!("t{}", t),
+    let table = |t: usize, aty: ColTy, rows: Vec<Vec<Val>>| { let n = rows.len(); TableSpec { cluster: None, name: format!("t{}", t),
         cols: vec![mk(&format!("id{}", t), ColTy::I64), mk(&format!("a{}", t), aty), mk(&format!("b{}", t), ColTy::I64), mk(&format!("c{}", t), ColTy::I64), mk(&format!("v{}", t), ColTy::I64)], rows, cuts: if n == 0 { vec![] } else { vec![n] } } };
     let i = |v: i64| Val::I(v);
     let row = |id: i64, a: i64, v: i64| vec![i(id), i(a), i(0), i(0), i(v)];
